@@ -325,6 +325,9 @@ func (v *validateNotes) Validate(value any) error {
 		return nil
 	}
 	for _, n := range notes {
+		if n == nil {
+			continue
+		}
 		if n.Key.In(v.key) {
 			return nil // match found, this is good
 		}
